@@ -1723,8 +1723,8 @@ func rulePlumbing(c *Ctx, rule string) {
 		c.Unk(rule, "smf writer/SMF/Track types", "-", "not found")
 		return
 	}
-	setDelta := p.MethodOf(types.NewPointer(wT), "SetDelta")
-	write := p.MethodOf(types.NewPointer(wT), "Write")
+	setDelta := p.roleFunc("smf.writer.SetDelta")
+	write := p.roleFunc("smf.writer.Write")
 	newW := p.roleFunc("smf.newWriter")
 	if setDelta != nil && write != nil {
 		c.Fn(FuncName(write))
